@@ -1059,13 +1059,33 @@ func c12Job(r *mon.R, j c12Spec, idx int) {
 			"signature": mon.Hex(cx.main.sigRef), "combiners": cx.main.combiners, "distinct_signatures_seen": len(cx.main.sigsSeen)})
 		prev = rnd
 	}
+	// [mixed-thresholds] keys of different thresholds in one session, both directions (own PRNG stream: the histories above are unchanged)
+	t2 := j.t + 1
+	if t2 > j.n {
+		t2 = j.t - 1
+	}
+	if t2 < 2 {
+		return
+	}
+	mrng := gen.New(r.Seed, "c12mixed/"+j.id(), 0)
+	var alt []dss.DistKeyShare
+	if p, bad := mon.Try(func() { alt, err = c12RunDKG(j.rk, e.nodes, t2, mrng) }); bad {
+		err = fmt.Errorf("panic: %s", p)
+	}
+	if err != nil {
+		setupFail("DKG of the other threshold", err)
+		return
+	}
+	mmsg := mrng.Bytes(c12MsgLens[(idx+j.ks)%len(c12MsgLens)])
+	e.mixedThresholds("mixed/one-time-key-of-other-threshold", long, alt, j.t, t2, mmsg, mrng)
+	e.mixedThresholds("mixed/long-term-key-of-other-threshold", alt, prev, t2, j.t, mmsg, mrng)
 }
 
 func c12(r *mon.R) {
 	r.SetRule("jobs = (n in 3..7) x (t in 2..n) x (long-term DKG, one-time DKG in {pedersen,rabin}^2) x keysets; per job real all-honest DKG runs, per message a fresh one-time key; " +
 		"histories at a fresh DSS object of EVERY participant: [subsets] every t-subset (sampled above the cap) x orders, own partial by PartialSig() or from the network; " +
 		"[mixed] k in {t-1..n} valid partials in random order with injected wrong-value/forged/cross-session/out-of-range/other-index/duplicate/malformed partials (classes rotate); " +
-		"[own-loopback] own partial from the network, then PartialSig(). After EVERY event: ProcessPartialSig result, EnoughPartialSig and Signature() are compared with the ledger of really delivered valid partials " +
+		"[own-loopback] own partial from the network, then PartialSig(); [mixed-thresholds] long-term and one-time key from DKGs of different thresholds (t and t+1, or t-1 when t=n; both directions), T=max: every participant combines all honest partials in a random order. After EVERY event: ProcessPartialSig result, EnoughPartialSig and Signature() are compared with the ledger of really delivered valid partials " +
 		"and with the reference signature R||r+H(R,A,m)a (math/big); eddsa/schnorr/dss/crypto-ed25519 verifiers on the first and the final signature of each history. " +
 		"distinct = (job, session, family, combiner, history, step); non-trivial = at least one event was played before the judgement")
 	r.Assume("math/big Lagrange interpolation over all shares held by the harness gives the group secrets; the reference signature is additionally checked by crypto/ed25519 before any judgement")
